@@ -11,6 +11,9 @@
 // of the store, a fresh process is started on it and runs a full pass; the outcome
 // must equal the uninterrupted one.
 //
+// "concurrent" scenarios (conc.go): the pass runs while rotations publish new segments in the two metadata
+// files (coq/model/RetentionConc.v).
+//
 // Every observation also holds the three views of the in-memory metadata of rotated log
 // segments (global slice, reverse index, per-index slices), what FilterSegmentsByTime hands
 // to a query over every index and GetAllColNames; a second stream builds stores whose
@@ -77,7 +80,8 @@ type Round struct {
 }
 
 type Spec struct {
-	Kind       string            `json:"kind"` // plain | interrupt | stale_metrics | live_tagstree
+	Kind       string            `json:"kind"`           // plain | interrupt | stale_metrics | live_tagstree | late_expiry | concurrent
+	Gate       string            `json:"gate,omitempty"` // concurrent: how the publication of Extras / Live is interleaved with the pass (conc.go)
 	Dir        string            `json:"dir"`
 	Hours      int               `json:"hours"`
 	T0         int64             `json:"t0"`
@@ -175,6 +179,8 @@ type WorkerOut struct {
 	MetNames map[string]string `json:"met_names,omitempty"`
 	HostRoot string            `json:"host_root"`
 	Err      string            `json:"err,omitempty"`
+	GateInfo map[string]int    `json:"gate_info,omitempty"` // concurrent: what the gate saw (conc.go)
+	MnmDirs  map[string]string `json:"mnm_dirs,omitempty"`  // concurrent: metric name -> directory of the metrics segment that holds it (from the .mnm files)
 }
 
 // ---------------------------------------------------------------- worker (child process)
@@ -676,6 +682,10 @@ func workerMain(specPath, outPath string) {
 			for time.Now().UnixMilli() < spec.T0+spec.PassAfter {
 				time.Sleep(100 * time.Millisecond)
 			}
+		}
+		if spec.Kind == "concurrent" {
+			concurrentPass(&spec, &out, hostRoot)
+			finish()
 		}
 		out.Tb = time.Now().UnixMilli()
 		for rep, tag := range []string{"post", "post2"} {
@@ -1840,6 +1850,8 @@ type scenarioResult struct {
 	// index names that a repeated cycle over several orgs dropped because another org's segments had
 	// the same index name when the org's own pass ran (see sharedIndexNames)
 	SharedNames int
+	Counts      []string // histogram keys
+	NChecks     int      // number of comparisons the Coq term makes (0: 8 + 4 per interruption point)
 }
 
 func chooseBoundaries(r *vhlib.Rng, ops []Op, count []int, hostRoot string, targets []string, thorough bool) []int {
@@ -2376,6 +2388,8 @@ func main() {
 		"1 s .. 2 h older and 5 min .. 1 day newer than the horizon, oldest-older/newest-newer mixes, retention 1/24/360/720 h, passes for org 0, 1 or both; " +
 		"a second stream of stores whose segments of one index end on the same millisecond (3-4 rounds, same index name in two orgs in every second store); " +
 		"observed per store: the three in-memory views (global slice, reverse index, per-index slices), FilterSegmentsByTime over all time and a window, GetAllColNames; " +
+		"a third stream in which the pass runs WHILE rotations publish 1-2 log and 1-2 metrics segments in segmeta.json / metricmeta.json (publisher queued behind the pass that waits at its rewrite, " +
+		"publication between selection and rewrite, both started together), observed after both finished, after one more pass and after a restart; " +
 		"non-trivial = the pass removed at least one segment and kept at least one; distinct by (scenario, interruption point)")
 	r := vhlib.NewRng(cfg.Seed)
 
@@ -2427,6 +2441,26 @@ func main() {
 	}
 	specs = append(specs, genSharedName(r.Fork()))
 	rngs = append(rngs, r.Fork())
+	// the pass running while the ingest side publishes freshly rotated segments in the two metadata files
+	nConc := 6
+	if cfg.Thorough() {
+		nConc = 60
+	}
+	for i := 0; i < nConc; i++ {
+		specs = append(specs, genConcurrent(r.Fork(), i))
+		rngs = append(rngs, r.Fork())
+	}
+	if only := os.Getenv("C14_ONLY"); only != "" {
+		// debugging aid: run the scenarios of one kind only (the specs themselves do not change)
+		var ks []*Spec
+		var kr []*vhlib.Rng
+		for i := range specs {
+			if specs[i].Kind == only {
+				ks, kr = append(ks, specs[i]), append(kr, rngs[i])
+			}
+		}
+		specs, rngs = ks, kr
+	}
 	results := make([]*scenarioResult, len(specs))
 	var wg sync.WaitGroup
 	sem := make(chan struct{}, 8)
@@ -2436,6 +2470,10 @@ func main() {
 			defer wg.Done()
 			sem <- struct{}{}
 			defer func() { <-sem }()
+			if specs[i].Kind == "concurrent" {
+				results[i] = runConcurrentScenario(i, specs[i], rngs[i], cfg)
+				return
+			}
 			results[i] = runScenario(i, specs[i], rngs[i], cfg)
 			if results[i].HErr != "" && specs[i].Kind == "late_expiry" && strings.Contains(results[i].HErr, "late_expiry timing") {
 				// the machine was too slow for the short schedule: once more with a long one
@@ -2454,6 +2492,9 @@ func main() {
 			continue
 		}
 		sum.Count("scenario_" + res.Spec.Kind)
+		for _, c := range res.Counts {
+			sum.Count(c)
+		}
 		if res.Spec.Ties {
 			sum.Count("scenario_with_tied_newest_timestamps")
 		}
@@ -2504,6 +2545,10 @@ func main() {
 		}
 		if !res.Spec.NoModel {
 			terms = append(terms, fmt.Sprintf("tag %d (%s)", i, res.CoqTerm))
+			if res.NChecks > 0 {
+				termChecks = append(termChecks, res.NChecks)
+				continue
+			}
 			termChecks = append(termChecks, 8+4*res.NTrials) // wf, pass, repeated pass, trace, in-memory views (before, after, repeated, enumerations), per interruption point: restart state and outcome, views after restart and after the pass
 		}
 	}
